@@ -602,6 +602,9 @@ func (f *SQLFormatter) formatJoin(join *ast.JoinClause) error {
 
 // formatExpression formats SQL expressions
 func (f *SQLFormatter) formatExpression(expr ast.Expression) error {
+	if expr == nil {
+		return nil
+	}
 	switch e := expr.(type) {
 	case *ast.Identifier:
 		if e.Table != "" {
@@ -648,6 +651,12 @@ func (f *SQLFormatter) formatExpression(expr ast.Expression) error {
 			}
 		}
 	case *ast.BinaryExpression:
+		// NOT EXISTS (...) is represented as a binary expression without a right operand
+		if e.Right == nil && strings.EqualFold(e.Operator, "NOT") {
+			f.writeKeyword("NOT")
+			f.builder.WriteString(" ")
+			return f.formatExpression(e.Left)
+		}
 		// Handle IS NULL / IS NOT NULL specially
 		if e.Operator == "IS NULL" {
 			if err := f.formatExpression(e.Left); err != nil {
